@@ -65,6 +65,8 @@ def _check(ctx, scffld, bait, result, exc, origin):
     ctx.nontrivial([rows, a, b])
     ctx.count("outcome:found")
     i, j, s, e = exp
+    if len(rows) >= 3 and (rows[0][0] == "G" or rows[-1][0] == "G"):
+        ctx.sample({"rows": rows, "query": [a, b], "expected_rows": [i, j], "expected_span": [s, e], "origin": origin})
     if result is None:
         ctx.violation("returned-none-where-rows-expected", f"query {a}-{b} expected rows {i}..{j}, got None; rows={rows}", case)
         return
